@@ -70,7 +70,7 @@ class Outcome:
 
 class Contract:
     def __init__(self, func, cases, ensures, requires=(), raises=None, loops=None, ghosts=None,
-                 canaries=(), outcomes=None, use_contract_for=(), note="", properties=(), defs=None, lemmas=()):
+                 canaries=(), outcomes=None, use_contract_for=(), note="", properties=(), defs=None, lemmas=(), facts=()):
         self.func = func  # "doctrans.module:qualname"
         self.cases = cases
         self.requires = list(requires)
@@ -86,6 +86,7 @@ class Contract:
         self.defs = defs or {}
         self.witness = None
         self.lemmas = {l.id: l for l in lemmas}
+        self.facts = list(facts)  # lemma instances offered to every obligation of a path where they can be evaluated
 
 
 # ------------------------------------------------------------------------------------------------
@@ -107,7 +108,8 @@ def preimport_meta():
 
 def module_ast(modname):
     if modname not in _MOD_AST:
-        path = os.path.join(REPO, *modname.split(".")) + ".py"
+        root = os.path.dirname(os.path.dirname(os.path.dirname(os.path.abspath(__file__)))) if modname.startswith("vf.") else REPO
+        path = os.path.join(root, *modname.split(".")) + ".py"
         with open(path, "rt") as f:
             src = f.read()
         _MOD_AST[modname] = (ast.parse(src, filename=path), src, path)
@@ -316,6 +318,20 @@ class VEngine(E.Engine):
         return res
 
 
+def _add_facts(eng, contract, ob, s, env):
+    for lid, inst in contract.facts:
+        lem = contract.lemmas[lid]
+        lenv = dict(env)
+        try:
+            for pn, etxt in inst.items():
+                lenv[pn] = eng.spec_value(etxt, s, env=env)
+            li = eng.spec_eval(lem.text, s, env=lenv)
+        except Unsupported:
+            continue
+        ob.hyps.append(z3.BoolVal(li) if isinstance(li, bool) else li)
+        ob.extra.setdefault("lemmas_used", []).append(lid)
+
+
 def verify_function(contract, registry, only_cases=None):
     modname, qual = contract.func.split(":")
     rep = FuncReport(contract)
@@ -393,6 +409,7 @@ def verify_function(contract, registry, only_cases=None):
                     eng.obligations.append(lob)
             outs = eng.exec_block(node.body, st)
             n_ret = 0
+            n_abort = 0
             for kind, val, s in outs:
                 if kind in ("ok", "return"):
                     n_ret += 1
@@ -439,11 +456,18 @@ def verify_function(contract, registry, only_cases=None):
                         ob = eng.oblige("safety", s, z3.BoolVal(False), "%s must not escape: %s" % (val.kind, val.msg),
                                         oid="%s/no-%s#%d" % (label, val.kind, rep.raise_paths))
                         ob.extra["exc"] = val.kind
+                        _add_facts(eng, contract, ob, s, env)
                     elif cond is not True:
                         g = eng.spec_eval(cond, s, env=env)
                         ob = eng.oblige("raises", s, z3.BoolVal(g) if isinstance(g, bool) else g,
                                         "%s only when: %s" % (val.kind, cond),
                                         oid="%s/raises-%s#%d" % (label, val.kind, rep.raise_paths))
+                        _add_facts(eng, contract, ob, s, env)
+                elif kind == "abort":
+                    n_abort += 1
+                    ob = eng.oblige("abort", s, z3.BoolVal(False), "path left the verified subset: %s" % val,
+                                    oid="%s/abort#%d" % (label, n_abort))
+                    ob.status, ob.reason = "undecided", "outside the verified subset: %s" % val
                 else:
                     raise Unsupported("loop control escaped function body")
             rep.paths += n_ret
